@@ -37,10 +37,21 @@ def gen_history(seed, cfg, idx):
         size = r.pick(SIZES) if (big_budget > 0 and r.chance(0.35)) else r.pick([0, 1, 2, 10, 50, 300])
         if size > 5000:
             big_budget -= 1
-        if k <= 3:
-            # large *output*: small source
+        if k <= 2:
+            # large *output*: small source. The reply is the output plus "\nNone" (5 bytes): some
+            # sizes are chosen so that the *reply* is an exact multiple of the frame size
+            if size >= 65533 and r.chance(0.5):
+                size = r.pick([65535, 131070]) - 5 - len(tag)
             inputs.append(f'print! "{tag}" + "x" * {size}')
             expected.append(tag + "x" * size)
+        elif k == 3:
+            # non-ASCII output: bytes and characters differ
+            unit = r.pick(["あ", "é", "\U0001F600"])
+            n = size // len(unit.encode()) if size else 0
+            if size >= 65533 and r.chance(0.5):
+                n = (r.pick([65535, 131070]) - 5 - len(tag)) // len(unit.encode())
+            inputs.append(f'print! "{tag}" + "{unit}" * {n}')
+            expected.append(tag + unit * n)
         elif k <= 5:
             # large *source* (and code object: into_script quadruples it)
             lit = "q" * size
